@@ -136,6 +136,27 @@ def translate_sources():
             "source": f"finam/{spec['path']}::{spec['qual']}", "group": spec["group"], "props": spec["props"],
             "translated": err is None, "error": err, "sha1": hashlib.sha1(text.encode()).hexdigest()[:12],
         }
+    # a function that calls the translation of another one needs that translation: if the callee could not be translated,
+    # the caller's file would not compile (and with it the validation driver) — it is marked untranslated as well
+    by_name = {sp["lean"]: sp for sp in trspecs.SPECS}
+    changed = True
+    while changed:
+        changed = False
+        for spec in trspecs.SPECS:
+            st = TRANSLATION_STATUS[spec["lean"]]
+            if not st["translated"]:
+                continue
+            callees = [h["lean"] for h in spec.get("calls", {}).values()
+                       if isinstance(h, dict) and h["lean"] in by_name and h["lean"] != spec["lean"]]
+            bad = [c for c in callees if not TRANSLATION_STATUS[c]["translated"]]
+            if bad:
+                msg = f"Untranslatable: calls {bad[0]}, which could not be translated"
+                text = (f"/- GENERATED by harness/py2lean.py from finam/{spec['path']} :: {spec['qual']} — do not edit. -/\n"
+                        "import FinamModel.PyPrelude\nset_option linter.unusedVariables false\nnamespace Finam.Tr\nopen Finam\n\n"
+                        f"/-- translation failed: {msg} -/\ndef {spec['lean']}.untranslatable : Unit := ()\n\nend Finam.Tr\n")
+                _write_if_changed(os.path.join(tdir, spec["lean"] + ".lean"), text)
+                st.update({"translated": False, "error": msg, "sha1": hashlib.sha1(text.encode()).hexdigest()[:12]})
+                changed = True
     # stale files of functions no longer listed
     if os.path.isdir(tdir):
         for fn in os.listdir(tdir):
